@@ -1,4 +1,5 @@
 import ChemProofs.Props.C05Sound
+import ChemProofs.Props.C05Rejects
 import ChemProofs.Gen.Table
 /-
 C05 — the two directions at the table regenerated from /repo.
@@ -31,5 +32,34 @@ theorem parse_total_table (cc : CharClass) (hcc : cc.AsciiOK) (s : List Nat) :
   | ok ents =>
     obtain ⟨ts, h1, h2, h3, _, h5⟩ := parse_sound cc hcc table s ents h
     exact Or.inr ⟨ents, rfl, ts, h1, h2, h3, h5⟩
+
+/-- no key of the compiled table contains a parenthesis (kernel evaluation over the whole table) -/
+theorem table_noParenKeys : noParenKeys table = true := by decide +kernel
+
+/-- whitespace, NUL, non-ASCII letters and superscripts are not characters of the compiled table's formulas -/
+theorem table_foreign : formulaChar table 32 = false ∧ formulaChar table 0 = false ∧ formulaChar table 233 = false ∧
+    formulaChar table 178 = false ∧ formulaChar table 20013 = false ∧ formulaChar table 45 = false := by decide +kernel
+
+/-- at the compiled table: a string holding a space, NUL, `é`, `²`, `中` or `-` is rejected with an error value -/
+theorem reject_junk_table (cc : CharClass) (hcc : cc.AsciiOK) (s : List Nat) (c : Nat)
+    (hc : c = 32 ∨ c = 0 ∨ c = 233 ∨ c = 178 ∨ c = 20013 ∨ c = 45) (hs : c ∈ s) : parseFormula cc table s = .err := by
+  have h := table_foreign
+  refine reject_foreign_char cc hcc table s c ?_ hs
+  rcases hc with rfl | rfl | rfl | rfl | rfl | rfl
+  · exact h.1
+  · exact h.2.1
+  · exact h.2.2.1
+  · exact h.2.2.2.1
+  · exact h.2.2.2.2.1
+  · exact h.2.2.2.2.2
+
+/-- at the compiled table: unbalanced parentheses and empty groups are rejected with an error value -/
+theorem reject_unbalanced_table (cc : CharClass) (hcc : cc.AsciiOK) (s : List Nat) (h : balanced s = false) :
+    parseFormula cc table s = .err :=
+  reject_unbalanced cc hcc table table_noParenKeys s h
+
+theorem reject_empty_group_table (cc : CharClass) (hcc : cc.AsciiOK) (pre post : List Nat) :
+    parseFormula cc table (pre ++ [40, 41] ++ post) = .err :=
+  reject_empty_group cc hcc table table_noParenKeys pre post
 
 end Chem.Inst
